@@ -126,3 +126,27 @@ def check_shared_caches(ctx, paths, rule: str, consequence: str, witness: Option
                    "makes a hit return the same value")
     for key, why, where in cache_findings(paths):
         ctx.fail(rule, key, f"{label + ': ' if label else ''}{why}; {consequence}", where, witness)
+
+
+def check_arguments_influence(ctx, rule: str, label: str, p, schema, where: str, witness: Optional[str] = None):
+    """Necessary condition for any translation of f(a0, a1, ...): on a returning path the result mentions every argument
+    that can be row-dependent on that path (a field, a path, a call, an operation). A result that is the same whatever such
+    an argument evaluates to cannot be its translation."""
+    from ..values import NodeV
+    if p.outcome != "return":
+        return
+    from .. import termrules as _T
+    try:
+        text = repr(p.value) + " " + repr(_T.norm(p.value))
+    except Exception:
+        text = repr(p.value)
+    for a in p.entry.get("args", []):
+        if not isinstance(a, NodeV) or not a.path.startswith("args["):
+            continue
+        dependent = sorted(k for k in a.kinds if k != "NoneType" and not schema.is_sub(k, "_Literal"))
+        if not dependent:
+            continue
+        occurs = any((a.path + c) in text for c in "),.'[\"")
+        ctx.check(occurs, rule, f"{label}|{a.path}",
+                  f"{label}: the result `{text[:120]}` does not depend on {a.path} (which can be {', '.join(dependent[:4])}...) under "
+                  f"{p.cond_str()[:120]}: whatever that operand evaluates to - NULL included - the answer is the same", where, witness)
